@@ -204,8 +204,7 @@ func admitRule(s ref.Suite, in ref.Input) string {
 	return "admitted"
 }
 
-func admissionSuites() []ref.Suite {
-	var out []ref.Suite
+func admissionSuites() (out []ref.Suite) {
 	defer func() {
 		// every third class also with an advertised suite string as its Raw text
 		regs := liveNames()
@@ -213,6 +212,12 @@ func admissionSuites() []ref.Suite {
 		for i := 0; i < n0 && len(regs) > 0; i += 3 {
 			x := out[i]
 			x.Raw = regs[i%len(regs)]
+			out = append(out, x)
+		}
+		// ... and with suite strings that say something else (other lengths, session sizes, time steps) as Raw text
+		for i := 1; i < n0; i += 3 {
+			x := out[i]
+			x.Raw = []string{"OCRA-1:HOTP-SHA512-8:C-QA10-PSHA512-S064-T2H", "OCRA-1:HOTP-SHA1-4:QH08-S512", "OCRA-1:HOTP-SHA256-10:QN10-S256-T59S", "OCRA-1:HOTP-SHA1-6:C-QN08-S001", "ocra-1:hotp-sha1-6:qn08-s128"}[(i/3)%5]
 			out = append(out, x)
 		}
 	}()
